@@ -203,6 +203,13 @@ func (reader *H265Reader) NextNAL() (*NAL, error) {
 		return nil, io.EOF
 	}
 
+	// the stream ended inside this unit: it was not checked in the loop above
+	if reader.shouldSkipNAL(NalUnitType((reader.nalBuffer[0] & 0x7E) >> 1)) {
+		reader.nalBuffer = nil
+
+		return nil, io.EOF
+	}
+
 	nal := newNal(reader.nalBuffer)
 	reader.nalBuffer = nil
 	nal.parseHeader()
